@@ -37,6 +37,24 @@ type exerciseStats struct {
 func exerciseNode(st *Store, n datamodel.Node, xs *exerciseStats, keysToTry []string) {
 	_ = n.Kind()
 	_ = n.Length()
+	// the rest of the node interface: wrong-kind accessors and the like answer with an error or a zero value
+	_, _ = n.IsAbsent(), n.IsNull()
+	_, _ = n.AsBool()
+	_, _ = n.AsInt()
+	_, _ = n.AsFloat()
+	_, _ = n.AsString()
+	_, _ = n.AsLink()
+	_ = n.Prototype()
+	if li := n.ListIterator(); li != nil {
+		for i := 0; i < 3 && !li.Done(); i++ {
+			_, _, _ = li.Next()
+		}
+	}
+	if sub, ok := n.(interface{ Substrate() datamodel.Node }); ok {
+		if s := sub.Substrate(); s != nil {
+			_ = s.Kind()
+		}
+	}
 	if n.Kind() == datamodel.Kind_Map {
 		var yielded []string
 		if it := n.MapIterator(); it != nil {
@@ -95,6 +113,7 @@ func exerciseNode(st *Store, n datamodel.Node, xs *exerciseStats, keysToTry []st
 		rs, err := lb.AsLargeBytes()
 		if err == nil && rs != nil {
 			buf := make([]byte, 5)
+			_, _ = rs.Read(nil)
 			for _, s := range [][2]int64{{0, io.SeekEnd}, {3, io.SeekStart}, {1, io.SeekCurrent}, {-1, io.SeekStart}, {-2, io.SeekCurrent}, {-1000, io.SeekEnd}, {100, io.SeekStart}, {1 << 40, io.SeekStart}, {0, io.SeekStart}, {-3, io.SeekEnd}} {
 				_, _ = rs.Seek(s[0], int(s[1]))
 				zero := 0
